@@ -48,15 +48,51 @@ def c05_tables(tier):
             out.append(rec("C05/regex-case-insensitive", name, "regex-terminal-ignores-case", ok, src))
     ign = sorted(p.lalr.ignore_tokens)
     out.append(rec("C05/ignore-set", "ignore", "exactly-COMMENT-CCOMMENT-WS-_NL", ign == ["CCOMMENT", "COMMENT", "WS", "_NL"], ign))
-    want = {"WS": ("[ \t\x0c]+", set()), "_NL": ("[\r\n]+", set()), "COMMENT": ("\\#[^\n]*", set()), "CCOMMENT": (r"\/[*].*?[*]\/", {"s"})}
-    for n, (src, fl) in want.items():
-        t = terms.get(n)
-        out.append(rec("C05/ignore-patterns", n, "pattern-as-documented", t is not None and t.pattern.value == src and set(t.pattern.flags or ()) == fl,
-                       (t.pattern.value, t.pattern.flags) if t else None))
+    # what the ignored terminals match (their behaviour on a table of lexemes, not the spelling of their patterns):
+    # blanks / line breaks in any run length; a # comment up to (not including) the line break; a /* */ comment up to the
+    # FIRST closing */ whatever stars, slashes, quotes or line breaks it contains
+    from bounded.seams import C_COMMENT_FORMS, HASH_COMMENT_FORMS
+    rx = {n: re.compile(terms[n].pattern.to_regexp()) for n in ("WS", "_NL", "COMMENT", "CCOMMENT") if n in terms}
+    probes = [("WS", t, len(t)) for t in (" ", "   ", "\t", " \t\x0c ")] + [("_NL", t, len(t)) for t in ("\n", "\r\n", "\n\n\r\n")]
+    probes += [("COMMENT", c + "\nNAME 'x' # later", len(c)) for c in HASH_COMMENT_FORMS] + [("COMMENT", c, len(c)) for c in HASH_COMMENT_FORMS]
+    probes += [("CCOMMENT", c + " EXTENT 0 0 1 1 /* later */ SIZE 2 2", len(c)) for c in C_COMMENT_FORMS] + [("CCOMMENT", c, len(c)) for c in C_COMMENT_FORMS]
+    for n, text, want_end in probes:
+        mm = rx[n].match(text) if n in rx else None
+        out.append(rec("C05/ignore-patterns", f"{n}:{text[:24]!r}", "matches-exactly-the-separator-or-comment", mm is not None and mm.end() == want_end,
+                       None if mm is None else mm.end()))
+    for n, text in (("WS", "x"), ("_NL", " "), ("COMMENT", "NAME # c"), ("CCOMMENT", "/ * c */"), ("CCOMMENT", "/* never closed")):
+        mm = rx[n].match(text) if n in rx else None
+        out.append(rec("C05/ignore-patterns", f"{n}:{text!r}", "does-not-match-other-text", mm is None, None if mm is None else mm.end()))
     # every blank / line break / comment opener is matched by an ignored terminal
     for ch in " \t\f\r\n":
         ok = any(re.fullmatch(terms[n].pattern.to_regexp(), ch) for n in ("WS", "_NL"))
         out.append(rec("C05/ignore-coverage", repr(ch), "separator-character-is-ignored", ok))
+    return out
+
+
+# ---------------------------------------------------------------------------------------------
+# C08: line counting of the lexer
+# ---------------------------------------------------------------------------------------------
+
+def c08_tables(tier):
+    """Lark advances its line counter only inside terminals it has classified as 'may contain a newline' (a static test on
+    the pattern text).  Every terminal of this grammar that can match text with a line break must be so classified,
+    otherwise every later token is recorded on a wrong line."""
+    out = []
+    p = _parser()
+    lx = p.lalr.parser.lexer
+    root = getattr(lx, "root_lexer", lx)
+    newline_types = set(root.newline_types)
+    samples = ["\n", "\r\n", "/* a\n b */", "/*\n*/", '"a\nb"', "'a\nb'", "`a\nb`", "# c\n", "[a\nb]", "/a\nb/", "{a,\nb}", "%a\nb%", "a\nb"]
+    for t in sorted(p.lalr.terminals, key=lambda t: t.name):
+        try:
+            rx = re.compile(t.pattern.to_regexp())
+        except re.error:
+            continue
+        can = [sm for sm in samples if rx.fullmatch(sm)]
+        if can:
+            out.append(rec("C08/newline-terminals", t.name, "terminal-that-can-span-lines-is-counted-by-the-lexer", t.name in newline_types, can[:2]))
+    out.append(rec("C08/newline-terminals", "_NL", "line-break-terminal-is-counted", "_NL" in newline_types))
     return out
 
 
